@@ -17,9 +17,9 @@ def norm(mask, full):
     return mask & full
 
 
-def wellformed(ctx, tree, clause, key, tag="", traversals=True):
+def wellformed(ctx, tree, clause, key, tag="", traversals=True, taxon_key=None):
     """snapshot + well-formedness verdict; returns the RefTree."""
-    rt, problems = snapshot(tree)
+    rt, problems = snapshot(tree, taxon_key=taxon_key)
     if not problems and traversals:
         problems = traversal_problems(tree, rt)
     ctx.check(not problems, clause, key, lambda: "%s %r" % (tag, problems))
